@@ -129,7 +129,7 @@ ALL_PATTERN_LETS = pattern_lets()
 
 # statement alphabet: (kind, parameter)
 SIMPLE = [("letpat", i) for i in range(len(ALL_PATTERN_LETS))]
-OTHER = [("swap", None), ("copy", "a"), ("copy", "b"), ("block_unit", None), ("block_value", "a"), ("block_value", "b"),
+OTHER = [("swap", None), ("swap_arr", None), ("copy", "a"), ("copy", "b"), ("block_unit", None), ("block_value", "a"), ("block_value", "b"),
          ("match_opt", "a"), ("match_opt", "b"), ("match_either_let", "a"), ("match_either_let", "b"),
          ("match_bool_block", None),
          ("call", "first"), ("call", "second"), ("call", "swapped"), ("call", "shadow"), ("call", "inner"), ("call", "one"),
@@ -153,6 +153,12 @@ def emit(g, item, bound, depth, inner_items):
         ta, tb = bound["a"], bound["b"]
         nb = dict(bound, a=tb, b=ta)
         return [Let(PTuple([PVar("a"), PVar("b")]), TUP(tb, ta), TupleE([Var("b", tb), Var("a", ta)]))], nb
+    if kind == "swap_arr":
+        # an array (not a tuple) of plain variables, both possibly shadowed earlier
+        if not {"a", "b"} <= set(bound) or bound["a"] != bound["b"]:
+            return None
+        t = bound["a"]
+        return [Let(PArray([PVar("a"), PVar("b")]), ARR(t, 2), ArrayE([Var("b", t), Var("a", t)], t))], bound
     if kind == "copy":
         other = "b" if par == "a" else "a"
         if other not in bound:
